@@ -743,6 +743,7 @@ impl<T: Serialize + for<'de> Deserialize<'de> + Clone + PartialEq + Send + Sync 
         };
 
         // Write batch to WAL
+        let mut logged_any = false;
         for (key, value) in changes {
             let serialized_value = value
                 .as_ref()
@@ -772,6 +773,25 @@ impl<T: Serialize + for<'de> Deserialize<'de> + Clone + PartialEq + Send + Sync 
 
             // Notify listeners
             self.notify_listeners(&key, value.as_ref()).await;
+            logged_any = true;
+        }
+
+        // Commit marker: recovery applies the records of a batch only once it has seen
+        // this marker, so a crash in the middle of the loop above cannot leave half a
+        // batch behind.
+        if logged_any {
+            let marker = self.create_wal_entry(
+                transaction_id,
+                TransactionType::Checkpoint,
+                String::new(),
+                None,
+            )?;
+            let mut writer = self.wal_writer.lock().map_err(|_| {
+                P2PError::Storage(StorageError::LockPoisoned(
+                    "mutex lock failed".to_string().into(),
+                ))
+            })?;
+            writer.write_entry(&marker)?;
         }
 
         Ok(())
@@ -1011,6 +1031,8 @@ impl<T: Serialize + for<'de> Deserialize<'de> + Clone + PartialEq + Send + Sync 
         let mut buffer = Vec::new();
         // End of the last completely framed record
         let mut framed_end = 0u64;
+        // Records of batches whose commit marker has not been seen yet, by transaction
+        let mut open_batches: HashMap<u64, Vec<WalEntry>> = HashMap::new();
 
         loop {
             // Read entry size
@@ -1080,26 +1102,51 @@ impl<T: Serialize + for<'de> Deserialize<'de> + Clone + PartialEq + Send + Sync 
                 continue;
             }
 
-            // Apply entry to state
-            match entry.transaction_type {
-                TransactionType::Upsert | TransactionType::Batch => {
-                    if let Some(value_data) = entry.value {
-                        match postcard::from_bytes::<T>(&value_data) {
-                            Ok(value) => {
-                                let mut state_guard = self.state.write().map_err(|_| {
-                                    P2PError::Storage(StorageError::LockPoisoned(
-                                        "write lock failed".to_string().into(),
-                                    ))
-                                })?;
-                                state_guard.insert(entry.key, value);
-                                entries_recovered += 1;
+            // Batch records wait for their commit marker (a Checkpoint record carrying
+            // the same transaction id); a batch without one was cut short by a crash.
+            let transaction_id = entry.transaction_id;
+            let entries_to_apply: Vec<WalEntry> = match entry.transaction_type {
+                TransactionType::Batch => {
+                    open_batches.entry(transaction_id).or_default().push(entry);
+                    Vec::new()
+                }
+                TransactionType::Checkpoint => {
+                    open_batches.remove(&transaction_id).unwrap_or_default()
+                }
+                _ => vec![entry],
+            };
+
+            for entry in entries_to_apply {
+                // Apply entry to state
+                match entry.transaction_type {
+                    TransactionType::Upsert | TransactionType::Batch => {
+                        if let Some(value_data) = entry.value {
+                            match postcard::from_bytes::<T>(&value_data) {
+                                Ok(value) => {
+                                    let mut state_guard = self.state.write().map_err(|_| {
+                                        P2PError::Storage(StorageError::LockPoisoned(
+                                            "write lock failed".to_string().into(),
+                                        ))
+                                    })?;
+                                    state_guard.insert(entry.key, value);
+                                    entries_recovered += 1;
+                                }
+                                Err(_) => {
+                                    stats.entries_failed += 1;
+                                }
                             }
-                            Err(_) => {
-                                stats.entries_failed += 1;
-                            }
+                        } else if entry.transaction_type == TransactionType::Batch {
+                            // batch_update logs a removal as a batch record without value
+                            let mut state_guard = self.state.write().map_err(|_| {
+                                P2PError::Storage(StorageError::LockPoisoned(
+                                    "write lock failed".to_string().into(),
+                                ))
+                            })?;
+                            state_guard.remove(&entry.key);
+                            entries_recovered += 1;
                         }
-                    } else if entry.transaction_type == TransactionType::Batch {
-                        // batch_update logs a removal as a batch record without value
+                    }
+                    TransactionType::Delete => {
                         let mut state_guard = self.state.write().map_err(|_| {
                             P2PError::Storage(StorageError::LockPoisoned(
                                 "write lock failed".to_string().into(),
@@ -1108,18 +1155,9 @@ impl<T: Serialize + for<'de> Deserialize<'de> + Clone + PartialEq + Send + Sync 
                         state_guard.remove(&entry.key);
                         entries_recovered += 1;
                     }
-                }
-                TransactionType::Delete => {
-                    let mut state_guard = self.state.write().map_err(|_| {
-                        P2PError::Storage(StorageError::LockPoisoned(
-                            "write lock failed".to_string().into(),
-                        ))
-                    })?;
-                    state_guard.remove(&entry.key);
-                    entries_recovered += 1;
-                }
-                TransactionType::Checkpoint => {
-                    // Checkpoint marker, no action needed
+                    TransactionType::Checkpoint => {
+                        // Checkpoint marker, no action needed
+                    }
                 }
             }
 
@@ -1130,10 +1168,15 @@ impl<T: Serialize + for<'de> Deserialize<'de> + Clone + PartialEq + Send + Sync 
                         "mutex lock failed".to_string().into(),
                     ))
                 })?;
-                if entry.transaction_id > *counter {
-                    *counter = entry.transaction_id;
+                if transaction_id > *counter {
+                    *counter = transaction_id;
                 }
             }
+        }
+
+        // Batches that never got their marker were interrupted: not applied.
+        for (_, abandoned) in open_batches.drain() {
+            stats.entries_failed += abandoned.len() as u64;
         }
 
         // A torn record at the end of the live log means the process died while
